@@ -55,6 +55,7 @@ def build_installation(ctx, rng, root, shape="normal"):
     """shape: normal | huge-index (one index with > 65536 entries) | many-files (> 64 index files behind one handle)"""
     inst = Inst()
     inst.shape = shape
+    inst.far = False
     inst.platform = rng.choice(list(sq.PLATFORMS))
     pid = sq.PLATFORMS[inst.platform]
     inst.exps = sorted(rng.sample(range(1, 10), rng.choice([0, 1, 2, 3, 9])))
@@ -95,14 +96,17 @@ def build_installation(ctx, rng, root, shape="normal"):
             other = rng.choice([0] + inst.exps)
             paths += [gen_path(rng, cat, other) for _ in range(3)]
         locs = {}
+        far = {}   # dat id -> shift: the entries of that dat file live beyond 4 GiB (sparse file), the index addresses up to 2^35
         for p in paths:
             datid = rng.randrange(8) if rng.random() < 0.5 else rng.randrange(2)
+            if datid not in dats and rng.random() < 0.1 and not huge:
+                far[datid] = rng.choice([(1 << 32) - 4096, 1 << 32, (1 << 33) + 128 * rng.randrange(1000), (1 << 35) - (1 << 24)])
             db = dats.setdefault(datid, sq.DatBuilder(pid))
             gap = rng.choice([0, 0, 3])
-            off = (len(db.buf) + gap * 128 + 127) // 128 * 128
+            off = (len(db.buf) + gap * 128 + 127) // 128 * 128 + far.get(datid, 0)
             payload = ("LOC %s/%s/%d/%d/%d" % (sq.repo_name(exp), cat, chunk, datid, off)).encode()
             entry, _ = sq.standard_entry([payload], [rng.choice(["raw", "raw", "dynamic"])])
-            got = db.add(entry, gap_blocks=gap)
+            got = db.add(entry, gap_blocks=gap) + far.get(datid, 0)
             assert got == off
             locs[p] = (datid, off)
             inst.payload[(exp, cat, chunk, datid, off)] = payload
@@ -110,7 +114,14 @@ def build_installation(ctx, rng, root, shape="normal"):
         for datid, db in dats.items():
             b = db.bytes()
             inst.bytes += len(b)
-            open(os.path.join(rd, sq.dat_filename(cid, exp, chunk, inst.platform, datid)), "wb").write(b)
+            with open(os.path.join(rd, sq.dat_filename(cid, exp, chunk, inst.platform, datid)), "wb") as f:
+                if datid in far:
+                    f.write(b[:2048])
+                    f.seek(2048 + far[datid])
+                    f.write(b[2048:])
+                    inst.far = True
+                else:
+                    f.write(b)
         for kind in kinds:
             sub = [p for p in paths if len(kinds) == 1 or rng.random() < 0.8] or paths[:1]
             ents = []
@@ -285,6 +296,8 @@ def run_installation(ctx, rng, inst, root, nq, ino):
                 nontrivial = bool(locs) or cls.startswith("near") or cls == "case-variant"
                 classes = ["q:" + kind, "cls:" + cls, "platform:" + inst.platform, "expect:" + ("lenient" if present is None else "present" if present else "absent")]
                 for (e, c, ch, d, o) in list(locs)[:1]:
+                    if o >= (1 << 32) - 4096:
+                        classes.append("offset:>=4GiB")
                     classes += ["repo:" + ("base" if e == 0 else "expansion"), "cat:" + c, "chunk:%d" % ch, "dat:%d" % d]
                 ctx.case(digest(ikey, kind, path), nontrivial, classes,
                          sample=dict(query=kind, path=path, answer=str(ans)[:80], expected_locations=sorted(locs)[:2]) if locs else None)
